@@ -20,7 +20,7 @@ PROPERTY = "C12"
 
 META = {
     "bounds": {
-        "quick": "7 template programs + a three-block program under all 6 orders of its blocks' file offsets (one with a string literal holding a symbolic source character) x entry point {cli, file API} x the whole option lattice (2 formats x 3 mappings x copier flag, symbolic) x -D value of 4 symbolic hex digits; start address symbolic in the mapping's first banks; symbol file for 3 templates",
+        "quick": "8 template programs + a three-block program under all 6 orders of its blocks' file offsets (one with a string literal holding a symbolic source character) x entry point {cli, file API} x the whole option lattice (2 formats x 3 mappings x copier flag, symbolic) x -D value of 4 symbolic hex digits; start address symbolic in the mapping's first banks; symbol file for 3 templates",
         "thorough": "10 templates, -D value of 6 hex digits, start address anywhere in the mapping's window",
     },
     "outside": ["argparse itself and the OS process boundary (replayed concretely through `python -m a816.cli`)", "--dump-symbols console output", "programs beyond the templates"],
@@ -37,6 +37,10 @@ TEMPLATES = {
     "two-blocks": [("star", "p0", "rom"), ("dw", "v"), ("label", "first"), ("star", "p1", "rom"), ("dl", "v"), ("label", "second"), ("db", "v")],
     # three `*=` blocks: written in source order whatever the order of their file offsets (all 6 orders, see jobs)
     "three-blocks": [("star", "p0", "rom"), ("dw", "v"), ("label", "first"), ("star", "p1", "rom"), ("dl", "v"), ("label", "second"), ("star", "p2", "rom"), ("db", "v"), ("dw", "v"), ("label", "third")],
+    # the same label name at the same address in two scopes (both lines belong in the symbol file)
+    "dup-labels": [("star", "p0", "rom"), ("block", [("label", "same")]), ("block", [("label", "same")]), ("dw", "v"), ("scope", "ns", [("label", "same")]), ("label", "after")],
+    # the -D name re-used as a macro parameter, a loop variable and a block-local symbol (the local meaning wins inside)
+    "define-shadow": [("star", "p0", "rom"), ("raw", ".macro mv(v) {\n.db v\n}\nmv(5)", 1), ("raw", ".for v := 0, 2 {\n.db v\n}", 2), ("raw", "{\nv = 3\n.db v\n}", 1), ("dw", "v"), ("label", "end")],
     "scopes": [("star", "p0", "rom"), ("label", "top"), ("block", [("db", "v"), ("label", "inner")]), ("scope", "ns", [("dw", "v"), ("label", "exported")]), ("nop",)],
     "loop": [("star", "p0", "rom"), ("label", "before"), ("for", "i", 2, [("db", "v"), ("label", "inloop")]), ("label", "afterloop"), ("dw", "v")],
     "macro": [("star", "p0", "rom"), ("macro", "mm", [("abs", "v"), ("label", "local")]), ("apply", "mm"), ("label", "mid"), ("apply", "mm")],
@@ -47,7 +51,7 @@ TEMPLATES = {
     "literal": [("star", "p0", "rom"), ("raw", ".ascii 'a?b'", 3), ("label", "after"), ("dw", "v")],
     "nested": [("star", "p0", "rom"), ("block", [("scope", "ns", [("label", "deep"), ("dw", "v")]), ("for", "i", 2, [("block", [("db", "v")])])]), ("label", "end")],
 }
-QUICK = ["data", "instr", "two-blocks", "scopes", "loop", "reloc", "literal"]
+QUICK = ["data", "instr", "two-blocks", "scopes", "loop", "reloc", "literal", "define-shadow"]
 
 MAPPINGS = ["low", "low2", "high"]
 GEOM = {"low": "low", "low2": "low", "high": "high"}
@@ -64,7 +68,7 @@ def jobs(tier, seed):
     for order in itertools.permutations(("p0", "p1", "p2")):
         for entry in ("cli", "file"):
             out.append({"id": f"three-blocks/{''.join(x[1] for x in order)}/{entry}", "tpl": "three-blocks", "entry": entry, "digits": 2, "wide": tier == "thorough", "order": list(order)})
-    for n in (names[:3] if tier == "quick" else names):
+    for n in (names[:3] + ["dup-labels"] if tier == "quick" else names):
         out.append({"id": f"{n}/symbol-file", "tpl": n, "entry": "symfile", "digits": 2, "wide": False})
     return out
 
